@@ -1,5 +1,6 @@
 //! C20: expansion is a pure function of the macro input - histories of repeated, reordered and
-//! concurrent expansions within one process must reproduce the first output token for token.
+//! concurrent expansions within one process (also from parse results kept while other inputs were
+//! parsed) must reproduce the first output token for token.
 
 use crate::c14;
 use crate::c15::{cfg, CONFIGS};
@@ -22,6 +23,7 @@ pub fn expand_string(text: &str, ci: usize) -> String {
             Ok(t) => t,
             Err(e) => return format!("LEX-ERROR {}", e),
         };
+        crate::c15::HEARTBEAT.fetch_add(1, std::sync::atomic::Ordering::Relaxed);
         match syn::parse2::<JoinInputDefault>(ts) {
             Err(e) => format!("SYN-ERROR {}", e),
             Ok(p) => generate_join(&p, cfg(ci)).to_string(),
@@ -110,6 +112,28 @@ pub fn run_history(h: &History) -> Result<(), String> {
                 if *first != out {
                     return Err(format!("sequential: expansion #{} of input {} (config {:?}) differs from its first expansion", k, i, CONFIGS[*c]));
                 }
+            }
+        }
+    }
+    // decoupled pass: every input of the pool is parsed first, the kept parse results are expanded
+    // afterwards in history order - the output may depend on the parsed input and the configuration
+    // only, not on what was parsed last on this thread
+    let parsed: Vec<Option<JoinInputDefault>> = h
+        .pool
+        .iter()
+        .map(|text| {
+            crate::c15::HEARTBEAT.fetch_add(1, std::sync::atomic::Ordering::Relaxed);
+            catch_unwind(AssertUnwindSafe(|| proc_macro2::TokenStream::from_str(text).ok().and_then(|ts| syn::parse2::<JoinInputDefault>(ts).ok()))).ok().flatten()
+        })
+        .collect();
+    for (k, (i, c)) in h.seq.iter().enumerate() {
+        if let Some(p) = &parsed[*i] {
+            let out = match catch_unwind(AssertUnwindSafe(|| generate_join(p, cfg(*c)).to_string())) {
+                Ok(s) => s,
+                Err(p) => format!("PANIC {}", p.downcast_ref::<String>().cloned().or_else(|| p.downcast_ref::<&str>().map(|s| s.to_string())).unwrap_or_default()),
+            };
+            if table.get(&(*i, *c)) != Some(&out) {
+                return Err(format!("decoupled: expansion #{} of input {} (config {:?}) from a parse result kept while other inputs were parsed differs from its first expansion", k, i, CONFIGS[*c]));
             }
         }
     }
@@ -212,7 +236,7 @@ pub fn order_independent(h: &History) -> Result<(), String> {
 pub fn run(tier: &str, seed: u64) -> i32 {
     let t0 = std::time::Instant::now();
     let mut ev = Evidence::new("C20", tier, seed, "exploration");
-    ev.rule = "histories: a pool of 2-7 generated inputs (structures over all operators with adversarial operands, and wide programs with up to 11 branches x 3 steps, each with 0-2 options incl. explicit futures_crate_path / custom_joiner) x the 8 configurations; a sequence of 2-39 expansions over the pool in random order with repetition, executed sequentially on one thread and then again concurrently on 1-8 fresh threads started behind a barrier (each thread lexes its own token stream; only strings cross threads). Oracle: table (input, config) -> first output string; every later output, sequential or concurrent, is byte-identical (syn errors and configuration panics are outputs too); every fourth history is additionally expanded in two fresh child processes, once in the given and once in reverse order, and each (input, config) must give the same output in both - state that the first expansion of a process leaves behind would show there. Non-trivial = some (input, config) is expanded at least twice with a different input in between, or the history runs on >= 2 threads; distinct by history content".to_string();
+    ev.rule = "histories: a pool of 2-7 generated inputs (structures over all operators with adversarial operands, and wide programs with up to 11 branches x 3 steps, each with 0-2 options incl. explicit futures_crate_path / custom_joiner) x the 8 configurations; a sequence of 2-39 expansions over the pool in random order with repetition, executed sequentially on one thread, then once more from parse results that were all produced up front (parsing and generating decoupled), and then again concurrently on 1-8 fresh threads started behind a barrier (each thread lexes its own token stream; only strings cross threads). Oracle: table (input, config) -> first output string; every later output, sequential or concurrent, is byte-identical (syn errors and configuration panics are outputs too); every fourth history is additionally expanded in two fresh child processes, once in the given and once in reverse order, and each (input, config) must give the same output in both - state that the first expansion of a process leaves behind would show there. Non-trivial = some (input, config) is expanded at least twice with a different input in between, or the history runs on >= 2 threads; distinct by history content".to_string();
     ev.assumptions = vec!["token-for-token identity is compared on the string form of the output token stream".into()];
     let cases: u32 = if tier == "quick" { 2_500 } else { 40_000 };
     let counts = RefCell::new((0u64, 0u64, 0u64, BTreeMap::<String, u64>::new(), Vec::<serde_json::Value>::new(), HashSet::<u64>::new()));
